@@ -228,10 +228,18 @@ def run_action(rdd, a):
     if name == 'reduce':
         return F.to_json(rdd.reduce(F.BIN[a['f']]))
     if name == 'fold':
-        return F.to_json(rdd.fold(F.from_json(a['z']), F.BIN[a['f']]))
+        zero = F.from_json(a['z'])
+        res = F.to_json(rdd.fold(zero, F.BIN[a['f']]))
+        if F.to_json(zero) != a['z']:
+            return {'caller_zero_mutated': F.to_json(zero), 'result': res}
+        return res
     if name == 'aggregate':
         z, s, c = F.AGG[a['agg']]
-        return F.to_json(rdd.aggregate(z(), F.BIN[s], F.BIN[c]))
+        zero = z()
+        res = F.to_json(rdd.aggregate(zero, F.BIN[s], F.BIN[c]))
+        if F.to_json(zero) != F.to_json(z()):
+            return {'caller_zero_mutated': F.to_json(zero), 'result': res}
+        return res
     if name == 'countByValue':
         return sorted_pairs(rdd.countByValue().items())
     if name == 'top':
@@ -303,6 +311,8 @@ class C01(Prop):
         r = rng.random()
         if r < .06:
             n = rng.choice([17, 1000])
+        elif r < .16:
+            n = rng.randint(9, 64)
         else:
             n = rng.randint(0, n_el + 2)
         depth = rng.randint(0, 4 if tier == 'quick' else 6)
@@ -320,7 +330,8 @@ class C01(Prop):
                 out.append({'xs': xs, 'n': n, 'ops': [{'op': 'glom'}], 'action': {'name': 'collect'}})
                 out.append({'xs': xs, 'n': n, 'ops': [], 'action': {'name': 'reduce', 'f': 'add'}})
                 out.append({'xs': [[x] for x in xs], 'n': n, 'ops': [], 'action': {'name': 'fold', 'z': [], 'f': 'extend'}})
-                out.append({'xs': xs, 'n': n, 'ops': [], 'action': {'name': 'aggregate', 'agg': 'appendExtend'}})
+                for agg in ('appendExtend', 'tupMut', 'nestMut'):
+                    out.append({'xs': xs, 'n': n, 'ops': [], 'action': {'name': 'aggregate', 'agg': agg}})
                 out.append({'xs': xs, 'n': n, 'ops': [{'op': 'filter', 'f': 'false'}], 'action': {'name': 'reduce', 'f': 'add'}})
         return out
 
